@@ -281,6 +281,47 @@ impl Prop for C09 {
                         }
                     }
                 }
+                // the same numbers as one edge of the speed-table traversal model (table speed in
+                // s_u, model distance unit d_u, time unit t_u, edge length given in metres): the
+                // edge's time is that time, and a non-positive speed or length is an error there too
+                if dist >= 0.0 {
+                    use crate::simodel::{build_state_model, build_traversal, CostSpec, SiSpec, StateSpec, TravSpec};
+                    let spec = SiSpec {
+                        net: crate::gen::NetCase {
+                            shape: "c09".into(),
+                            vertices: vec![(0.0, 0.0), (0.001, 0.0)],
+                            edges: vec![(0, 1, dist * dist_si(d_u))],
+                            metric: false,
+                        },
+                        trav: TravSpec::Speed { speeds: vec![speed], speed_unit: su, dist_unit: du, time_unit: tu },
+                        access: None,
+                        cost: CostSpec::distance_only(),
+                        state: StateSpec { dist_unit: du, dist_init: 0.0, time_unit: tu, time_init: 0.0 },
+                        allowed: None,
+                        restricted_turns: vec![],
+                    };
+                    let sm = build_state_model(&spec);
+                    let tm = build_traversal(&spec);
+                    if let Ok(mut state) = sm.initial_state() {
+                        let v0 = routee_compass_core::model::network::Vertex::new(0, 0.0, 0.0);
+                        let v1 = routee_compass_core::model::network::Vertex::new(1, 0.001, 0.0);
+                        let edge = routee_compass_core::model::network::Edge::new(0, 0, 1, dist * dist_si(d_u));
+                        let r = tm.traverse_edge((&v0, &edge, &v1), &mut state, &sm);
+                        let t = sm.get_time(&state, &"time".to_string(), &t_u).map(|t| t.as_f64()).unwrap_or(f64::NAN);
+                        let ctx = json!({"table_speed": speed, "speed_unit": su, "edge_length_m": dist * dist_si(d_u), "model_distance_unit": du, "time_unit": tu,
+                            "traverse": r.as_ref().map(|_| t).map_err(|e| e.to_string())});
+                        if speed <= 0.0 || dist <= 0.0 {
+                            if r.is_ok() {
+                                o.fail("C09/speed-model/non-positive-speed-or-length-turned-into-a-time", ctx);
+                            }
+                        } else {
+                            let want = (dist * dist_si(d_u)) / (speed * speed_si(s_u)) / time_si(t_u);
+                            if r.is_err() || !close(t, want, 2.5e-3, 0.0) {
+                                o.fail("C09/speed-model/edge-time", json!({"ctx": ctx, "expected": want}));
+                            }
+                        }
+                    }
+                }
             }
             C09Case::SpeedCreate { tu, du, su, time, dist } => {
                 o.label("speed-create");
